@@ -40,8 +40,8 @@ Inductive stmt :=
 | SIf (branches : list (option tree * block)) (els : option block)
 | SWhile (cond : option tree) (b : block)
 | SFor (var : option str) (range : list tree) (b : block)
-| SFunc (name : str) (b : block)
-| SOn (name : str) (b : block)
+| SFunc (name : str) (ret : bool) (params : list str) (b : block)   (* ret: declared with a return type *)
+| SOn (name : str) (params : list str) (b : block)
 with block := Block (stmts : list stmt) (terms : bool).   (* BlockStatement.alwaysTerms *)
 
 Definition block_terms (b : block) : bool := match b with Block _ t => t end.
@@ -84,12 +84,14 @@ Definition K_variadic_with_others := 25.
 Definition K_override_builtin_var := 26. (* parseFuncSignatures *)
 Definition K_override_builtin_func := 27.
 Definition K_redecl_func := 28.
-Definition K_event_param_type := 29.    (* addEventParamsToScope: wrong type for parameter *)
+Definition K_event_param_type := 29.
+Definition K_bare_return := 30.          (* parseReturnStatement: expected return value of type T, found none *)
+Definition K_return_value_failed := 31.  (* parseReturnStatement: the value expression failed: ..., found ILLEGAL *)    (* addEventParamsToScope: wrong type for parameter *)
 
 (* ---------- parser state above the token cursor ---------- *)
 Record var := { v_name : str; v_used : bool; v_pos : nat }.         (* parser.Var: Name, isUsed, token *)
-Record scope := { sc_vars : list var; sc_ret : bool; sc_loop : bool }.
-   (* scope.vars (newest first); returnType != nil; block is a WhileStmt / ForStmt *)
+Record scope := { sc_vars : list var; sc_ret : bool; sc_retval : bool; sc_loop : bool }.
+   (* scope.vars (newest first); returnType != nil; returnType != NONE_TYPE; block is a WhileStmt / ForStmt *)
 Record finfo := { fi_nil : bool;                 (* isNiladic *)
                   fi_ret : bool;                 (* ReturnType != NONE_TYPE *)
                   fi_params : list (str * nat) }. (* Params / VariadicParam: name and declaration token *)
@@ -164,7 +166,7 @@ Definition scope_set (n : str) (p : nat) (s : pst) : pst :=
   match scs s with
   | [] => s
   | sc :: r => with_scs s ({| sc_vars := {| v_name := n; v_used := false; v_pos := p |} :: remove_var n (sc_vars sc);
-                              sc_ret := sc_ret sc; sc_loop := sc_loop sc |} :: r)
+                              sc_ret := sc_ret sc; sc_retval := sc_retval sc; sc_loop := sc_loop sc |} :: r)
   end.
 
 (* v.isUsed = true on the variable scope.get finds (innermost scope first) *)
@@ -178,7 +180,7 @@ Fixpoint mark_scopes (n : str) (l : list scope) : list scope :=
   match l with
   | [] => []
   | sc :: r => if has_var n (sc_vars sc)
-               then {| sc_vars := mark_in n (sc_vars sc); sc_ret := sc_ret sc; sc_loop := sc_loop sc |} :: r
+               then {| sc_vars := mark_in n (sc_vars sc); sc_ret := sc_ret sc; sc_retval := sc_retval sc; sc_loop := sc_loop sc |} :: r
                else sc :: mark_scopes n r
   end.
 Definition mark (n : str) (s : pst) : pst := with_scs s (mark_scopes n (scs s)).
@@ -188,14 +190,16 @@ Definition collect (s : pst) (c : pstate) : pst :=
   let s1 := fold_right mark (with_cs s c) (used c) in
   upd (fun c => {| prev := prev c; rest := rest c; peek := peek c; wss := wss c; errs := errs c; used := [] |}) s1.
 
-Definition push_scope (ret loop : bool) (s : pst) : pst :=
-  with_scs s ({| sc_vars := []; sc_ret := ret; sc_loop := loop |} :: scs s).
+Definition push_scope (ret retval loop : bool) (s : pst) : pst :=
+  with_scs s ({| sc_vars := []; sc_ret := ret; sc_retval := retval; sc_loop := loop |} :: scs s).
 (* pushScopeWithNode: returnType is inherited *)
 Definition push_inherit (loop : bool) (s : pst) : pst :=
-  push_scope (match scs s with sc :: _ => sc_ret sc | [] => false end) loop s.
+  push_scope (match scs s with sc :: _ => sc_ret sc | [] => false end)
+             (match scs s with sc :: _ => sc_retval sc | [] => false end) loop s.
 Definition pop_scope (s : pst) : pst := with_scs s (tl (scs s)).
 Definition in_loop (s : pst) : bool := existsb sc_loop (scs s).
 Definition has_ret (s : pst) : bool := match scs s with sc :: _ => sc_ret sc | [] => false end.
+Definition ret_value (s : pst) : bool := match scs s with sc :: _ => sc_retval sc | [] => false end.
 
 (* validateScope: unused variables of the innermost scope, in source order *)
 Fixpoint insert_by_pos (v : var) (l : list var) : list var :=
@@ -369,12 +373,19 @@ Definition parse_call_stmt (s : pst) : PR (option stmt) :=
 Definition parse_return_stmt (s : pst) : PR (option stmt) :=
   let s1 := adv s in
   let rv := pos s1 in
-  pdo (v, s2) <- (if is_at_eol (cs s1) then Ok None s1
+  let bare := is_at_eol (cs s1) in
+  pdo (v, s2) <- (if bare then Ok None s1
                   else pdo (r, s2) <- p_toplevel s1;
                        match r with None => Ok None s2 | Some _ => Ok r (assert_eol s2) end);
+  (* returnType.accepts(ret.T).  ret.T is NONE for a bare return: never accepted by a declared return
+     type, always accepted by a procedure / handler (returnType NONE_TYPE); nil when the value
+     expression failed: never accepted; otherwise it is a matter of typing *)
   let s3 := if negb (has_ret s2) then serr_at K_return_not_allowed rv s2
-            else if tyerr_s TS_return_type (match v with Some t => t | None => TCall [] [] end) rv
-                 then upd (add_err_at (E_type TS_return_type) rv) s2 else s2 in
+            else match v with
+                 | None => if bare then (if ret_value s2 then serr_at K_bare_return rv s2 else s2)
+                           else serr_at K_return_value_failed rv s2
+                 | Some t => if tyerr_s TS_return_type t rv then upd (add_err_at (E_type TS_return_type) rv) s2 else s2
+                 end in
   Ok (Some (SReturn v)) (apnl s3).
 
 (* parseBreakStatement *)
@@ -559,14 +570,14 @@ Definition parse_func (fuel : nat) (s : pst) : PR (option stmt) :=
             | Some fi => fi
             | None => {| fi_nil := true; fi_ret := false; fi_params := [] |}   (* placeholder *)
             end in
-  let s3 := add_params (fi_params fi) (push_scope true false s2) in
+  let s3 := add_params (fi_params fi) (push_scope true (fi_ret fi) false s2) in
   pdo (b, s4) <- parse_block fuel s3;
   if negb is_ident then Ok None (pop_scope s4)
   else if mem_str name (bodies s4) then Ok None (pop_scope (serr K_redecl_func_body s4))
   else
     let s5 := if fi_ret fi && negb (block_terms b) then serr K_missing_return s4 else s4 in
     let s6 := finish_end s5 in
-    Ok (Some (SFunc name b))
+    Ok (Some (SFunc name (fi_ret fi) (map fst (fi_params fi)) b))
        (pop_scope {| cs := cs s6; scs := scs s6; fns := fns s6; bodies := name :: bodies s6; hds := hds s6 |}).
 
 (* parseEventHandler: the parameter loop *)
@@ -605,7 +616,7 @@ Definition parse_event_handler (fuel : nat) (s : pst) : PR (option stmt) :=
                  | Some _ => {| cs := cs s2; scs := scs s2; fns := fns s2; bodies := bodies s2; hds := name :: hds s2 |}
                  end in
   pdo (params, s4) <- on_params_loop (S (pos s3)) [] (adv s3);
-  let s5 := push_scope true false (apnl s4) in
+  let s5 := push_scope true false false (apnl s4) in
   let s6 := match params, ev with
             | _ :: _, Some ex =>
                 let s' := if Nat.eqb (List.length params) (List.length ex) then s5 else serr K_event_param_count s5 in
@@ -613,7 +624,7 @@ Definition parse_event_handler (fuel : nat) (s : pst) : PR (option stmt) :=
             | _, _ => s5
             end in
   pdo (b, s7) <- parse_block fuel s6;
-  Ok (Some (SOn name b)) (pop_scope (finish_end s7)).
+  Ok (Some (SOn name (map (fun d => fst (fst d)) params) b)) (pop_scope (finish_end s7)).
 
 (* parseProgram: the statement loop *)
 Fixpoint program_loop (fuel : nat) (acc : list stmt) (terms : bool) (s : pst) : PR (list stmt) :=
@@ -749,7 +760,7 @@ Definition parse (B : benv) (raw : list (token * position)) (eof : position) : o
     | (_ :: _) as es => Reject es                      (* Parse: errors of newParser end the parse *)
     | [] =>
       let globals := {| sc_vars := map (fun n => {| v_name := n; v_used := true; v_pos := 0 |}) (b_globals B);
-                        sc_ret := false; sc_loop := false |} in
+                        sc_ret := false; sc_retval := false; sc_loop := false |} in
       let s2 := {| cs := state_at tEOF toks []; scs := [globals]; fns := fns s1; bodies := []; hds := [] |} in
       match program_loop B (fuel_of toks) [] false s2 with
       | Crash w => CrashOut w
